@@ -66,7 +66,10 @@ def analyse(ctx, cfg, fnpath, assume=(), args=None, **kw):
     fn = cr.fn(fnpath)
     if fn is None:
         raise X.Unanalysable('anchor function %s not found' % fnpath)
+    hyps = kw.pop('_hyps', None)
+    kw.pop('_no_len_limit', None)
     ip = X.Interp(cr, **kw)
+    ip.hyps = hyps
     names = ['a%d' % i for i in range(fn.arg_count)]
     st = ip.start_state(fn, args=args, arg_names=names)
     for f in assume:
